@@ -41,7 +41,7 @@ LEVEL_TEXT = {
             "and kept by every history that creates properties, attaches plain observers, binds fresh properties (immediate mode, expressions over existing "
             "properties incl. bound ones, repeated inputs) and assigns to inputs; also by histories that bind existing properties, unbound or already bound (which may have readers; rebinding is reset() then assignment), call reset(), destroy properties that no live binding reads move-construct any property and move-assign over destinations no live binding reads (PropMove.v: every tree abstracts to the old one with the source renamed, the invariant is stable under renaming); also in MIXED worlds (PropMixed.v: evaluator objects, fresh properties bound through an evaluator, evaluateAll - an evaluator-driven property is an input of the immediate bindings reading it). "
             "(4) Observers that WRITE (PropAbsAct.v, PropSimAct.v, PropGrowAct.v): subscribers of valueChanged that assign the announced value to another property from inside the notification - on the abstract layer a complete nested assignment, on the executable model setHelper refines it (same coherence notion), so after any growing-network history followed by any history that attaches such observers (and plain ones) and assigns inputs, and after any history that interleaves new properties, such observers, fresh immediate bindings and assignments in ANY order, every immediately bound property equals its expression; expressions written with the library's operators: the regenerated table of all operator overloads passes the wiring check and the correspondence builds nodes with the real overloads. "
-            "Observers of valueAboutToChange of UNBOUND properties that write the old value elsewhere are covered the same way (PropAbsAct2.v, PropSimAct2.v, PropGrowAct2.v: network, then observers of both kinds and assignments; and networks growing in ANY order while such writers exist: new properties, observers, fresh / late / re-binding, reset(), move construction, destruction of unread properties, assignments). PARTIAL: such observers on bound properties, observers that reset bindings, and move assignment while writing observers exist are covered by the extracted checker check_c02 on every reached world and by correspondence; known finding "
+            "Observers of valueAboutToChange of UNBOUND properties that write the old value elsewhere are covered the same way (PropAbsAct2.v, PropSimAct2.v, PropGrowAct2.v: network, then observers of both kinds and assignments; and networks growing in ANY order while such writers exist: new properties, observers, fresh / late / re-binding, reset(), move construction, destruction of and move assignment over unread properties, assignments). PARTIAL: such observers on bound properties and observers that reset bindings are covered by the extracted checker check_c02 on every reached world and by correspondence; known finding "
             "KF-C02-aborted-walk (an exception cutting a notification walk short) is re-confirmed on every run.", '6/C02'),
     'C03': ("Machine-checked on the executable model of Property::setHelper: an equal value changes nothing and logs nothing; any other value notifies every "
             "about-to-change observer with (old, new) while get() = old, stores, then notifies every changed observer with the new value while get() = new, each "
